@@ -351,9 +351,14 @@ func (e *Env) Spawn(name string, f func(), onPanic func(v any, stack string)) {
 		defer func() {
 			if r := recover(); r != nil {
 				st := string(debug.Stack())
-				if onPanic != nil {
+				switch {
+				case onPanic != nil:
 					onPanic(r, st)
-				} else {
+				case e.OnPanic != nil:
+					// tasks of a world (also its epilogue tasks) call into the code under
+					// test: the world decides what a panic there means
+					e.OnPanic(name, r, st)
+				default:
 					e.HarnessError(fmt.Sprintf("panic in %s: %v\n%s", name, r, st))
 				}
 			}
